@@ -40,6 +40,10 @@ pub enum Op {
     /// record one still unrecorded stored handle: selector over the
     /// (owner, stored handle) pairs with spare capacity
     AdoptSlot { pick: u16, same_instance: bool },
+    /// `adopt_unchecked(h, h)` with the very same handle instance for both
+    /// arguments (what the repo's own tests do): a loopback record, documented
+    /// to have no effect; allowed at any time
+    LoopbackAdopt(u16),
     /// `Rc::unadopt(a, b)` on two arbitrary handle instances (redundant and
     /// unmatched calls allowed); if both selectors pick the same instance this
     /// is the loopback form
@@ -74,6 +78,9 @@ pub enum DAct {
     UpgradeOwnWeak(u16),
     CloneOwnSlot(u16),
     DropOwnSlot(u16),
+    /// `Rc::downgrade` on a handle stored in the dying value; the Weak escapes
+    /// (kept by the program)
+    DowngradeOwnSlot(u16),
     Observe,
     Panic,
 }
@@ -127,6 +134,7 @@ pub fn op_compact(op: &Op) -> String {
         Op::DropClosureRoots(h) => format!("DropClosureRoots({})", h),
         Op::Store { owner, target, adopt } => format!("Store({}<-{},a{})", owner, target, adopt),
         Op::AdoptSlot { pick, same_instance } => format!("AdoptSlot({}{})", pick, if *same_instance { ",same" } else { "" }),
+        Op::LoopbackAdopt(h) => format!("LoopbackAdopt({})", h),
         Op::Unadopt { a, b } => format!("Unadopt({},{})", a, b),
         Op::Remove { owner, slot, unadopt, keep } => format!(
             "Remove({}[{}]{}{})",
@@ -160,6 +168,7 @@ pub fn dact_compact(d: &DAct) -> String {
         DAct::UpgradeOwnWeak(k) => format!("upOwnW({})", k),
         DAct::CloneOwnSlot(k) => format!("cloneOwn({})", k),
         DAct::DropOwnSlot(k) => format!("dropOwn({})", k),
+        DAct::DowngradeOwnSlot(k) => format!("downgradeOwn({})", k),
         DAct::Observe => "observe".into(),
         DAct::Panic => "PANIC".into(),
     }
